@@ -6,12 +6,12 @@ import prattfam as pf, lexfam
 INV = "PrattAgreesWithGrammar ParensRedundant"
 
 
-def layout_leg(run, name, recs, layouts):
+def layout_leg(run, name, recs, layouts, ops_file=None):
     path = os.path.join(tlc.WORK, "layout-replay-%s.ndjson" % name)
     tpath = os.path.join(tlc.WORK, "layout-trace-%s.ndjson" % name)
     core.write_ndjson(path, recs)
     tight = os.path.join(tlc.WORK, "layout-tight-%s.ndjson" % name)
-    out, _ = core.run_vh(["layout-replay", path, "--seed", run.seed, "--layouts", layouts, "--trace-out", tpath, "--tight-out", tight])
+    out, _ = core.run_vh(["layout-replay", path, "--seed", run.seed, "--layouts", layouts, "--trace-out", tpath, "--tight-out", tight] + (["--ops-file", ops_file] if ops_file else []))
     summ = [o for o in out if "summary" in o]
     if not summ:
         raise tlc.ToolError("layout-replay produced no summary (%s)" % name)
@@ -26,7 +26,8 @@ def layout_leg(run, name, recs, layouts):
     trecs = core.read_ndjson(tpath)
     if trecs:
         run.sample({"leg": "R", "config": name, "layout": trecs[len(trecs) // 2]["text"]})
-    spec_tight(run, name, core.read_ndjson(tight))
+    if not ops_file:
+        spec_tight(run, name, core.read_ndjson(tight))      # (the Lexer configurations of the trace leg use the built-in operator set)
     return trecs
 
 
@@ -120,6 +121,8 @@ def check(run):
                      "leg R: every accepted program of those configurations and of the delimiter alphabet in %d seeded layouts (whitespace strings over space/tab/CR/LF at every token "
                      "boundary, no whitespace next to delimiters) must give the same token kinds/texts and the same tree; the wrapped token strings parsed by the real parser with every "
                      "redundant parenthesis written 1, 2 and 5 times and one seeded pair written 64 times; non-trivial = accepted program" % layouts)
+    run.rules.append("user operators: all ordered pairs over the 28 registered word operators (adjacent and extreme precedences) and 7 built-in representatives in 6 shapes: bare rendering, fully "
+                     "parenthesised form and seeded layouts of each must give the specified tree")
     run.rules.append("tight layouts: every accepted program also with white space dropped (a) greedily wherever hook H1 still reports the same tokens and (b) blindly at all / at half of the "
                      "boundaries, where the Lexer SPECIFICATION (TraceLexer on the real tokenizer's report, the specification's own tokens where it disagrees) decides whether the variant is still the same "
                      "token sequence: those variants must parse exactly like the spaced program; the bare rendering of every specified tree must parse to that tree, like its fully parenthesised twin")
@@ -143,6 +146,16 @@ def check(run):
         pf._replay(run, "wrap1-" + name, wraps, "C11", None, [run.seed])
         for mult, single in ((2, False), (5, False), (64, True)):
             budget_hits += paren_leg(run, name, wraps, mult, single)
+    # user-registered operators at adjacent and extreme precedences: the bare rendering and the fully parenthesised form of every pair sentence, in seeded layouts
+    ops_file = os.path.join(tlc.SPEC, "mc", "bigtable.json")
+    res = tlc.run("mc/MCPratt.tla", pf.pratt_cfg("c11-upairs", inv=INV, report="EmitRender", lazy=False, source="UPairSource", firstset="UPairSet", table="BigTable"), workers=16, timeout=2400)
+    run.tlc("M:Parens/user-pairs", res)
+    if res.violation:
+        run.model_violation("Parens/user-pairs", res)
+    else:
+        recs = core.tlc_printed_records(res)
+        layout_leg(run, "user-pairs", [r for r in recs if r.get("src") == "render"], 2, ops_file=ops_file)
+        pf._replay(run, "wrap1-user-pairs", [r for r in recs if r.get("src") == "wrap1"], "C11", ops_file, [run.seed])
     # delimiter-heavy accepted programs: layouts only
     res = tlc.run("mc/MCPratt.tla", pf.pratt_cfg("c11-delims", lazy=True, maxlen=4, alphabet="DelAlpha"), workers=16, timeout=2400)
     run.tlc("M:Pratt/exh-delims4", res)
